@@ -668,6 +668,21 @@ pub fn run(tier: Tier, replay: Option<&str>) {
             for (k, v) in st.outcomes {
                 *outcomes.entry(format!("table:{k}")).or_insert(0) += v;
             }
+            // the same on boards whose receive windows stay open until / beyond the start of RX2 (each window keeps its
+            // own size limit when RX2 is opened straight from the end of RX1)
+            for dur in [1000u32, 2500] {
+                let mut c2 = cfg.clone();
+                c2.duration_ms = dur;
+                let cj = json!({"size_table_cfg": serde_json::to_value(&c2).unwrap()});
+                let st = explore::bfs(&ctx, &cj, &|| Sys::new_table(&c2), 2, 100_000);
+                states += st.states;
+                transitions += st.transitions;
+                capped |= st.capped;
+                table_cfgs += 1;
+                for (k, v) in st.outcomes {
+                    *outcomes.entry(format!("table-long-window:{k}")).or_insert(0) += v;
+                }
+            }
             // the same uplink rate with every other RX1 data-rate offset the region admits
             for off in 1..=rr::max_rx1_offset(region) {
                 let cj = json!({"size_table_cfg": serde_json::to_value(&cfg).unwrap(), "rx1_offset": off});
@@ -696,7 +711,7 @@ pub fn run(tier: Tier, replay: Option<&str>) {
         ],
         "evaluations": ctx.evals(),
         "distinct_nontrivial": states,
-        "rule": "part (a): real next_fcnt_down (hook wrapper) for all 65536 wire values x every `last` in None + [b-W,b+W] around b in {0,0x10000,0x7FFFFFFF,0x80000000,0xFFFF0000,2^32-1} + a stride over the whole range, compared with the u64 specification rule; part (b): BFS over histories of whole uplink transactions on the real nb device, each delivering one frame of the alphabet (fresh +1/+2/+16384/+16385/+65536, same counter, older, replays of the last two accepted frames, forged MIC, other session, MIC under N+-65536, uplink-typed, port 0, at-limit and over-limit sizes) in RX1 or RX2, from sessions whose downlink counter starts at epoch boundaries (and whose uplink counter is far from / one step from / at exhaustion); part (c): the same on the async device in Class C (idle rxc_listen with one or two receptions, receptions while waiting for RX1 / RX2, followed by a Class A downlink); part (d): every region x every uplink data rate: frames whose MACPayload is exactly the regional limit of the RX1 / RX2 data rate (with and without FOpts) and one byte above it, histories of two transactions; with every other RX1 data-rate offset the region admits (negotiated first), frames at and one byte above every size limit of the region in RX1 and RX2, the limit taken from the window's own spreading factor and bandwidth; states = distinct (device snapshot minus uplink/ADR counters, reference counter, last two accepted frames)",
+        "rule": "part (a): real next_fcnt_down (hook wrapper) for all 65536 wire values x every `last` in None + [b-W,b+W] around b in {0,0x10000,0x7FFFFFFF,0x80000000,0xFFFF0000,2^32-1} + a stride over the whole range, compared with the u64 specification rule; part (b): BFS over histories of whole uplink transactions on the real nb device, each delivering one frame of the alphabet (fresh +1/+2/+16384/+16385/+65536, same counter, older, replays of the last two accepted frames, forged MIC, other session, MIC under N+-65536, uplink-typed, port 0, at-limit and over-limit sizes) in RX1 or RX2, from sessions whose downlink counter starts at epoch boundaries (and whose uplink counter is far from / one step from / at exhaustion); part (c): the same on the async device in Class C (idle rxc_listen with one or two receptions, receptions while waiting for RX1 / RX2, followed by a Class A downlink); part (d): every region x every uplink data rate: frames whose MACPayload is exactly the regional limit of the RX1 / RX2 data rate (with and without FOpts) and one byte above it, histories of two transactions, also on boards with 1000 / 2500 ms receive windows; with every other RX1 data-rate offset the region admits (negotiated first), frames at and one byte above every size limit of the region in RX1 and RX2, the limit taken from the window's own spreading factor and bandwidth; states = distinct (device snapshot minus uplink/ADR counters, reference counter, last two accepted frames)",
         "arith_last_values": n_last,
         "arith_pairs": n_last * 65536,
         "arith_accepting_pairs": arith_accepts,
